@@ -33,6 +33,10 @@ func init() {
 				p.Profile = "rollback+ladder"
 				p.Scenario = g.LadderScenario(p.Knobs.Targets[0], maxTx+5)
 			}
+			if g.chance(1, 5) {
+				p.Profile = "rollback+chain"
+				p.Scenario = g.RollbackChainScenario(p.Knobs.Targets)
+			}
 			p.Sched = g.RandSched()
 			if g.chance(1, 4) {
 				// a rollback is initialised, validated and committed in several store writes per target: a write that fails or
